@@ -687,6 +687,12 @@ def _kernel(m, cfg):
         m.assume(m.Or([m.ge(m.abs(Cn[k][0] - Cn[k][1]), H_[0] + H_[1]) for k in range(ndim)]))
     lo = [m.real("lo" + k) for k in "xyz"]
     LO = [m.t(x) for x in lo]
+    # magnitudes within 10^6 pixel sizes (as in the wiring configurations): the basis vectors are floats, orthonormal to 1e-16
+    # only, so that at ratios of 10^16 new-basis and original-basis coordinates disagree by more than a cell (IEEE, not claimed)
+    for t in H_:
+        m.assume(m.And(m.ge(t, sp / BIG), m.le(t, sp * BIG)))
+    for t in [x for c_ in Cn[:ndim] for x in c_] + LO:
+        m.assume(m.And(m.ge(t, -sp * BIG), m.le(t, sp * BIG)))
     if nz == 1:
         m.assume(m.And(m.le(LO[2], 0), m.gt(LO[2] + sp, 0)))
     # cell positions in the new basis
